@@ -7,7 +7,8 @@ The server answers the request with an "unknown method" error stream and is back
 — which learns of the failure only when it reads the first output — has by then opened (and will close) its input
 stream.  The server parses that stream as the NEXT request:
   * tick + close: the tick batch carries no `vgi_rpc.method` → a ProtocolError reply that the next call receives;
-  * close only:   the stream has no batch at all → StopIteration ends the `serve` loop, the connection is dead.
+  * close only:   the stream has no batch at all → a "no batch" ProtocolError reply that the next call receives
+                  (before the C05 repair of `_read_request`: StopIteration ended the `serve` loop, connection dead).
 The full statements of Spec/C04.lean are therefore false on the current tree, and a server-side-only repair (draining
 after an unknown method as after the other refusals) is not available: the server cannot know whether the unknown
 method was a header-less stream, and draining when it was not swallows the next request.
@@ -39,12 +40,17 @@ theorem next_call_gets_stale_error :
 theorem full_sync_false : ¬ Spec.SyncAfterEveryCall Gen.C04.shape :=
   fun h => not_synced (h svc hist1 agree1)
 
-/-- witness 2: open `zz`, leave at once: the empty input stream kills the serve loop; the next call is never answered -/
+/-- witness 2: open `zz`, leave at once: the empty input stream is answered as a request; the next call gets that reply -/
 def hist2 : List Call := [.stream noLog ⟨1, true, true⟩ false [], .unary noLog ⟨0, true, true⟩]
 
-theorem server_dead_then_blocked :
-    (runHist Gen.C04.shape svc hist2 St.init).1.srv = .dead ∧
-    ((runHist Gen.C04.shape svc hist2 St.init).2.map fun o => o.outs.map (·.blocked)) = [[false, false], [true]] := by decide
+theorem close_only_also_desyncs :
+    ((runHist Gen.C04.shape svc hist2 St.init).2.map fun o => o.outs.map (·.res)) = [[.opened, .closed], [.error]] := by decide
+
+/-- on the tree before that repair the serve loop ended and the next call was never answered -/
+theorem close_only_killed_server_before :
+    (runHist { repaired with emptyRequestReplies := false } svc hist2 St.init).1.srv = .dead ∧
+    ((runHist { repaired with emptyRequestReplies := false } svc hist2 St.init).2.map fun o => o.outs.map (·.blocked))
+      = [[false, false], [true]] := by decide
 
 /-- draining after an unknown method (as after the other refusals) is not a repair: when the unknown method was unary
 nothing follows, and the drain swallows the next request -/
